@@ -147,6 +147,14 @@ for nm, ent, can in (("c17_simplifier_rope_densify_step", "h_rope_densify", [dic
     UNITS.append(dict(name=nm, template="C17/rope.c", mode="plain", entry=ent, flags=[f for f in PFL if f != "--conversion-check"], unwind=9, level="bounded", backend="minisat", timeout=1800, sources=ROPE_SRC,
                       bound="inductive step from an arbitrary path of <= 5 states, <= 2 interpolated states per motion; additive objective with non-negative motion costs <= 2^40", functions=["ompl::geometric::PathSimplifier::ropeShortcutPath (" + ("densification of one motion" if "densify" in nm else "shortcut block") + ")"], canaries=can, defines=dict(NMAX=5)))
 
+# ---------------------------------------------------------------- PathSimplifier::partialShortcutPath: the acceptance test of one attempt
+PSC_RULES = [(r"std::swap\((\w+), (\w+)\);", r"SWAP_(\1, \2);", 0), (r"base::Cost (\w+) = ", r"double \1 = ", 0), (r"obj_->identityCost\(\)", "0.0", 0), (r"obj_->motionCost\(", "MC(", 0),
+             (r"obj_->combineCosts\(", "COMB(", 0), (r"obj_->isCostBetterThan\(", "BETTER(", 0), (r"states\[([^\]]+)\]", r"ST(\1)", 0)]
+UNITS.append(dict(name="c17_simplifier_partialShortcut_accept", template="C17/partial_shortcut.c", mode="plain", entry="h_partial_accept", flags=["--bounds-check", "--pointer-check", "--signed-overflow-check"], unwind=9, level="bounded",
+                  bound="paths of <= 6 states, one attempt", backend="cadical", timeout=600, functions=["ompl::geometric::PathSimplifier::partialShortcutPath (cost test of one attempt)"],
+                  sources=[dict(name="partial_accept", file=PS, begin=r"if \(pos0 > pos1\)\s*\{\s*std::swap\(pos0, pos1\);", end=r"if \(index0 < 0 && index1 < 0\)\s*\{\s*if \(pos0 \+ 1 == pos1\)", rules=PSC_RULES, loops={"allow_uncontracted": True})],
+                  canaries=[dict(name="wrong_half_of_the_last_motion", where="body:partial_accept", rx=r"MC\(ST\(pos1\), s1\)", repl="MC(s1, ST(pos1 + 1))")]))
+
 # ---------------------------------------------------------------- PathGeometric::checkAndRepair
 CR_RULES = [
     (r"if \(!si_->isSetup\(\)\)\s*si_->setup\(\);", "", 0), (r"states_\.empty\(\)", "(states__size == 0)", 0), (r"states_\.size\(\)", "states__size", 0),
@@ -166,7 +174,7 @@ UNITS.append(dict(name="c17_checkAndRepair", template="C17/check_repair.c", mode
 ASSUMPTIONS = ["the state vector is modelled as the identity sequence; getMotionStates(s1,s2,block,ns,false,true) yields exactly ns interior states (its own contract, not verified here)",
                "(int)floor(0.5 + count*segLen/remaining) is an arbitrary int below INT_MAX: for a zero-length path the operand is NaN and the conversion is undefined behaviour in C++ (x86 yields INT_MIN, which the code tolerates); recorded as an assumption"]
 TRUSTED = ["extraction rewrite tables of units/C17.py", "stubs in units/C17/pathgeom.c", "CBMC 6.11 DFCC + cadical/minisat"]
-NOT_COVERED = ["findBetterGoal: that the interpolation parameter (t - d[start]) / (d[end] - d[start]) lies in [0,1] (floating-point division: no back end finished)", "PathSimplifier: partialShortcutPath, perturbPath, simplify; ropeShortcutPath only as two inductive steps (its loop structure: restart after a shortcut, early exits, is not covered); (reduceVertices, collapseCloseVertices, smoothBSpline and findBetterGoal are checked bounded: <= 5 states, <= 2 steps); PathHybridization; every 'never longer / never worse' cost clause (exact-arithmetic)",
+NOT_COVERED = ["findBetterGoal: that the interpolation parameter (t - d[start]) / (d[end] - d[start]) lies in [0,1] (floating-point division: no back end finished)", "PathSimplifier: partialShortcutPath apart from the cost test of one attempt (sampling / snapping arithmetic and the path surgery are not covered), perturbPath, simplify; ropeShortcutPath only as two inductive steps (its loop structure: restart after a shortcut, early exits, is not covered); (reduceVertices, collapseCloseVertices, smoothBSpline and findBetterGoal are checked bounded: <= 5 states, <= 2 steps); PathHybridization; every 'never longer / never worse' cost clause (exact-arithmetic)",
                "SpaceInformation::getMotionStates, PathGeometric::interpolate() (no-argument form), 'length unchanged' by densification"]
 
 MISC_CPPS = ['src/ompl/geometric/src/PathGeometric.cpp']
